@@ -204,6 +204,8 @@ class CFG:
             The reachable symbols of the CFG
         """
         r_symbols = set()
+        if self._start_symbol is None:
+            return r_symbols
         r_symbols.add(self._start_symbol)
         reachable_transition_d = {}
         for production in self._productions:
